@@ -28,21 +28,14 @@ def init_case(h, call, fault):
     return {"run": run, "call": call, "isDefine": is_define, "clsOnSet": cls_on}
 
 
-def off_loses_state(h_off):
-    """K4 shape: the dict build resolves an attrs-generated __getstate__ from a base whose state lacks fields"""
+def hook_mro(h_off):
+    """what the __setattr__ reset looks at along the leaf's MRO (the bases are the same for both builds)"""
     C = ib.build(h_off)[-1]
-    if "__getstate__" in C.__dict__:
-        return False
+    out = []
     for K in C.__mro__[1:-1]:
-        g = K.__dict__.get("__getstate__")
-        if g is None:
-            continue
-        if getattr(g, "__name__", "") != "slots_getstate":
-            return False
-        known = {a.name for a in getattr(K, "__attrs_attrs__", ())}
-        # ... including the hash cache attribute, which the base's __setstate__ does not know about either
-        return any(a.name not in known for a in C.__attrs_attrs__) or bool(h_off["classes"][-1].get("cache_hash"))
-    return False
+        flag = K.__dict__.get("__attrs_own_setattr__", None)
+        out.append({"direct": K in C.__bases__, "ownSetattr": None if flag is None else bool(flag)})
+    return out
 
 
 def make_case(h, call, fault, ops):
@@ -55,21 +48,19 @@ def make_case(h, call, fault, ops):
     except Exception:  # noqa: BLE001 -- the slotted twin of a definable specification does not define
         on = copy.deepcopy(off)
         on["run"]["cfg"]["slots"] = True
-    # Shapes in which the *dict* build is known to be broken for reasons that are other properties' listed
-    # findings: K4 of C10 (inherited __getstate__ loses the subclass's fields) -> serialization groups are not
-    # compared; K2 of C04/C10 (frozen dict caching class below a slotted caching class: hash() raises) -> hash
-    # and serialization (which compares hashes) are not compared.
+    # A shape in which the *dict* build is known to be broken for a reason that is another property's listed
+    # finding: K2 of C04/C10 (frozen dict caching class below a slotted caching class: hash() raises) -> hash and
+    # serialization (which compares hashes) are not compared.
     skip = []
-    if off_loses_state(h_off):
-        skip += ["copy", "deepcopy", "pickle"]
     oc = off["run"]["cfg"]
     if oc["cacheHash"] and oc["frozen"] and off["run"]["cacheIsSlot"]:
         skip += ["hash", "copy", "deepcopy", "pickle"]
-    if oc["cacheHash"] and not on["run"]["attrs"]:
-        # a slotted hash-caching class WITHOUT fields: __getstate__ returns {} and pickle protocols 0/1 drop a
-        # falsy state, so __setstate__ never initialises the cache slot (reported as a suspected defect; C10's domain)
-        skip += ["pickle"]
-    return {"kind": "meta", "on": on, "off": off, "h": h, "fault": fault, "ops": ops, "skip": sorted(set(skip))}
+    if h["classes"][-1].get("init") is False:
+        # evolve goes through cls(...): without a generated __init__ that is whatever __init__ the class inherits
+        # (written for another class's layout); out of scope, as in C12
+        skip += ["evolve"]
+    return {"kind": "meta", "on": on, "off": off, "mro": hook_mro(h_off), "h": h, "fault": fault, "ops": ops,
+            "skip": sorted(set(skip))}
 
 
 # ------------------------------------------------------------------------------------------ behaviour of one build
@@ -218,6 +209,10 @@ def behaviour(h, ops):
     return out
 
 
+def _reset(C):
+    return C.__dict__.get("__setattr__", None) is object.__setattr__
+
+
 def observe(case):
     h = case["h"]
     h_on, h_off = toggled(h, True), toggled(h, False)
@@ -230,12 +225,14 @@ def observe(case):
     except Exception as e:  # noqa: BLE001 -- no slotted class at all: the builds do not agree on anything
         o_on = {"sig": [], "annotations": [], "exc": "other", "values": [], "trace": [], "excArgs": None, "cache": None}
         o_off["cache"] = None
-        return {"on": o_on, "off": o_off, "diff": ["define:" + common.exc_kind(e)]}
+        return {"on": o_on, "off": o_off, "diff": ["define:" + common.exc_kind(e)], "resetOn": False,
+                "resetOff": _reset(ib.build(h_off)[-1])}
     _, o_on = ib.construct(h_on, call, fault, enabled)
     o_on["cache"] = o_off["cache"] = None
     b_on, b_off = behaviour(h_on, case["ops"]), behaviour(h_off, case["ops"])
     diff = [g for g in GROUPS if g not in case.get("skip", []) and b_on.get(g) != b_off.get(g)]
-    return {"on": o_on, "off": o_off, "diff": diff}
+    return {"on": o_on, "off": o_off, "diff": diff, "resetOn": _reset(ib.build(h_on)[-1]),
+            "resetOff": _reset(ib.build(h_off)[-1])}
 
 
 def explain(case):
